@@ -306,9 +306,9 @@ class SEval:
                     return recv.s
                 raise Unknown(f"bytes.{m}: a bytes header needs decoding before str operations")
             if isinstance(recv, str):
+                if any(isinstance(a, (SBytes, bytes)) for a in args):
+                    raise Unknown("unmodelled: bytes argument to a str method")
                 if m == "split":
-                    if any(isinstance(a, SBytes) for a in args):
-                        raise Unknown("bytes separator on str")
                     return recv.split(*args)
                 if m == "replace":
                     return recv.replace(*args)
@@ -397,8 +397,8 @@ def check_parser(ctx, prefix, name, dims=(2, 3)):
         fi, r, err, _ = parser_summary(ctx.prog, name, nd, f"{prefix}.H-FAB")
         exp = EXPECT[name](nd)
         got = flat(r) if r is not None else None
-        ctx.check(err is None and got == exp, f"{prefix}.H-FAB", fi.site,
-                  f"{name} parses the canonical {nd}D FAB header to {exp}",
+        ctx.decide(err is None and got == exp, not (err or "").startswith("unmodelled"), f"{prefix}.H-FAB", fi.site,
+                   f"{name} parses the canonical {nd}D FAB header to {exp}",
                   f"{name} evaluated on the canonical {nd}D FAB header gives {got if err is None else 'ERROR: ' + err}"
                   f"; expected {exp}", key=f"{nd}D", objects={"template": canonical(nd), "summary": got})
 
@@ -434,6 +434,32 @@ def check_sibling_parsers(ctx, prefix, names=("shape_from_header", "indices_from
         fi = ctx.prog.func(UT, n, f"{prefix}.H-FAB")
         lenient = [c for c in walk_no_nested(fi.node) if isinstance(c, ast.Call) and isinstance(c.func, ast.Attribute)
                    and c.func.attr == "decode" and (len(c.args) > 1 or any(k.arg == "errors" for k in c.keywords))]
+        arg = fi.params[0]
+        decodes = any(isinstance(c, ast.Call) and isinstance(c.func, ast.Attribute) and c.func.attr == "decode"
+                      and isinstance(c.func.value, ast.Name) and c.func.value.id == arg for c in ast.walk(fi.node))
+        raw_calls = []
+        if not decodes:
+            # the parser takes text: every caller must hand it decoded text
+            from vk import rules as _rules
+            for g in ctx.prog.all_functions():
+                env = None
+                for c in ast.walk(g.node):
+                    if isinstance(c, ast.Call) and isinstance(c.func, ast.Name) and c.func.id == n and c.args:
+                        env = env if env is not None else _rules.local_env(g.node)
+                        a = c.args[0]
+                        txt = _rules.deep(a, env, tuple(g.params))
+                        val = env.get(a.id) if isinstance(a, ast.Name) else None
+                        decoded_names = {t.id for m in ast.walk(g.node) if isinstance(m, ast.Assign)
+                                         for t in m.targets if isinstance(t, ast.Name) and ".decode(" in norm(m.value)}
+                        if ".decode(" not in txt and not (isinstance(val, ast.AST) and ".decode(" in norm(val)) and \
+                                not (isinstance(a, ast.Name) and a.id in decoded_names):
+                            raw_calls.append(f"{g.qualname}: {norm(c)[:50]}")
+        ctx.check(decodes or not raw_calls, f"{prefix}.H-FAB", fi.site,
+                  f"{n} parses decoded text: the header bytes are decoded (strict ASCII) by the parser or by every caller",
+                  f"{n} parses the raw bytes without decoding them: only the last tokens of the line are parsed, so binary "
+                  f"junk in front of a FAB header (a recorded offset that points a few bytes early) passes here while the "
+                  f"sibling parsers used by the readers raise UnicodeDecodeError on the same bytes"
+                  + (f" (undecoded call sites: {raw_calls[:3]})" if raw_calls else ""), key=f"decodes:{n}", semantic=True)
         ctx.check(not lenient, f"{prefix}.H-FAB", fi.site,
                   f"{n} decodes header bytes strictly (like its sibling parsers and the readers)",
                   f"`{norm(lenient[0]) if lenient else ''}` decodes leniently: junk bytes in front of a FAB header are "
